@@ -58,11 +58,12 @@ def nutation80 (epsbar dpsi deps : R) : M3 :=
   let epsilon := epsilon_bar + delta_eps
   M3.mul (M3.mul (rot1 (-epsilon_bar)) (rot3 delta_psi)) (rot1 epsilon)
 
-/-- `iau1980.equinox` (degrees), given the (ε̄, Δψ) `_nutation` returned -/
+/-- `iau1980.equinox` (degrees), given the (ε̄, Δψ) `_nutation` returned; the guard `equinoxKinematic` of the kinematic terms is read
+from the AST (Generated/FrameFormulas*.lean) and pinned by `C02.kinematic_guard_pinned` -/
 def equinox80 (ttt epsbar dpsi day : R) (kinematic : Bool) : R :=
   let equin := dpsi * (3600.0 : R) * cos (deg2rad epsbar)
   let equin :=
-    if day ≥ (50506 : R) ∧ kinematic = true then
+    if equinoxKinematic day kinematic then
       let om_m := (125.04455501 : R) - ((5 : R) * (360.0 : R) + (134.1361851 : R)) * ttt + (0.0020756 : R) * powi ttt 2 + (2.139e-6 : R) * powi ttt 3
       equin + ((0.00264 : R) * sin (deg2rad om_m) + (6.3e-5 : R) * sin (deg2rad ((2 : R) * om_m)))
     else equin
